@@ -124,6 +124,16 @@ func runCase(phase string, i int) worker.Result {
 			f.NoRe = true
 		} else {
 			f.Regex = []string{"^alpha$", "a", "^gamma-1$", "^$", "zzz"}[rng.IntN(5)]
+			if remote && rng.IntN(2) == 0 {
+				f.Regex = "a" // broad: matches spread over every page of a listing
+			}
+		}
+		if remote && rng.IntN(5) < 2 {
+			// a key that every annotated manifest carries (about half of all): matches on every page
+			f.Key, f.NoRe, f.Regex = "org.test.salt", rng.IntN(2) == 0, ""
+			if !f.NoRe {
+				f.Regex = "^[0-9a-f]+$"
+			}
 		}
 	}
 	g := gen.Generate(rng, o)
@@ -212,7 +222,7 @@ func runCase(phase string, i int) worker.Result {
 		p := regmodel.FullProfile()
 		p.ReferrersAPI = kind == "remote-api"
 		p.DigestHeader = rng.IntN(4) != 0
-		if p.ReferrersAPI && rng.IntN(2) == 0 {
+		if p.ReferrersAPI && (rng.IntN(2) == 0 || (f.Kind == "annotation" && rng.IntN(2) == 0)) {
 			// the referrers listing arrives in several pages
 			p.ReferrersPaged = true
 			p.PageSize = 1 + rng.IntN(2)
@@ -223,6 +233,22 @@ func runCase(phase string, i int) worker.Result {
 			p.Referrers404Code = []string{"", "", "MANIFEST_UNKNOWN", "UNSUPPORTED", "NOT_FOUND"}[rng.IntN(5)]
 		}
 		prof = &p
+		if p.ReferrersPaged && f.Kind != "" {
+			// shape coverage: a listing of several pages with a referrer the filter keeps on a page other than the last
+			for x := range visited {
+				refs := g.Referrers(x) // ascending = push order = listing order
+				if len(refs) <= p.PageSize {
+					continue
+				}
+				lastPageStart := (len(refs) - 1) / p.PageSize * p.PageSize
+				for j, rf := range refs {
+					if j < lastPageStart && f.keeps(g, rf) {
+						res.Count("shape_filter_match_before_last_referrers_page:"+f.Kind, 1)
+						break
+					}
+				}
+			}
+		}
 	}
 	sh, err := stores.New(baseKind, prof)
 	if err != nil {
